@@ -132,3 +132,36 @@ Lemma staged_readable i p d :
   StagedWF i → i_hstate i !! p = Some d →
   i_manifest i !! ncp i p = Some d ∨ committed_copy i d.
 Proof. intros Hwf. apply (sw_I5 _ Hwf). Qed.
+
+
+(** * reset of several paths (fix 9f7da71): whatever it reports, its result is the fold of the
+    single-path resets over ALL named paths (a blocked path contributes an error and is skipped,
+    the others are restored) and the staged object stays well formed - hence readable
+    (C09_staged_paths_readable's invariant) and committable (C01_commit_valid) *)
+Lemma foldl_sapply_wf (os : list sop) i : StagedWF i → StagedWF (foldl (fun a o => sapply o a) i os).
+Proof. revert i. induction os as [|o os IH]; intros i Hwf; cbn [foldl]; [exact Hwf|]. apply IH, sapply_wf, Hwf. Qed.
+
+Lemma exec_sops_fst (os : list sop) i : fst (exec_sops os i) = foldl (fun a o => sapply o a) i os.
+Proof.
+  unfold exec_sops. generalize O. revert i.
+  induction os as [|o os IH]; intros i n; cbn [foldl fst]; [reflexivity|]. apply IH.
+Qed.
+
+Lemma reset_apply_result paths recursive order i :
+  let hps := remove_dups (concat (map (fun g => resolve_glob (i_hstate i) g recursive) paths)) in
+  let pps := match last (i_prev i) with
+             | Some pst => remove_dups (concat (map (fun g => resolve_glob pst g recursive) paths))
+             | None => []
+             end in
+  let adds := filter (fun p => negb (bool_decide (p ∈ pps))) hps in
+  fst (reset_apply paths recursive order i) =
+  foldl (fun a o => sapply o a) i (map SRemove adds ++ map SResetPrev (order pps)).
+Proof.
+  cbv zeta. unfold reset_apply.
+  match goal with |- context [exec_sops ?l ?x] => destruct (snd (exec_sops l x)); cbn [fst]; rewrite exec_sops_fst end.
+  all: rewrite foldl_app; f_equal; clear; match goal with |- context [filter ?f ?l] => generalize (filter f l) end;
+    intros l; revert i; induction l as [|p l IH]; intros i; cbn [foldl map]; [reflexivity|apply IH].
+Qed.
+
+Lemma reset_apply_wf paths recursive order i : StagedWF i → StagedWF (fst (reset_apply paths recursive order i)).
+Proof. intros Hwf. rewrite reset_apply_result. apply foldl_sapply_wf, Hwf. Qed.
